@@ -23,7 +23,7 @@ RULE = (
     "through one of ==, reflected ==, <=, >=, in, [k] 1-3 times and mutates it at one of {after the comparison, between comparisons, inside a nested element, through an alias} "
     "with one of {append, pop, setitem, clear, del key, set.add, attribute assignment, nested append}; empty snapshots (create) or wrong previous values (fix+trim). "
     "case = (test, comparison); non-trivial = a mutation happened after a comparison of that site; distinct = (op, value kind, mutation point, mutation kind, start state). "
-    "Plus classes whose deepcopy is unequal / __eq__ is always False (UsageError expected, nothing written)."
+    "Plus classes whose deepcopy is unequal / __eq__ is always False (UsageError expected, nothing written) and classes whose deepcopy raises (mutated after each comparison: the later state must never be written)."
 )
 ASSUMPTIONS = [
     "for == the first comparison is the recorded one; repeated == comparisons are only generated with values that are equal at each comparison time (a site compared with two unequal values contradicts itself)",
